@@ -37,7 +37,8 @@ REQUIRED_THEOREMS = ['Yaql.Props.C13.' + n for n in (
     'mapM_pure filterM_pure flatMapM_pure takeWhileM_pure dropWhileM_pure distinctM_pure findM_pure reduceM_pure '
     'scanM2_pure groupsM_pure sortRun_pure run_where run_select run_take run_skip run_reverse run_distinct run_orderBy_iter '
     'select_map where_error_position takeWhile_error_position skipWhile_error_position select_never_truncates '
-    'where_never_truncates select_congr_dup lam_where_eval lam_first_eval noLazy_of_hashable'
+    'where_never_truncates select_congr_dup lam_where_eval lam_first_eval noLazy_of_hashable run_select_lazy run_where_lazy '
+    'run_takeWhile_lazy run_skipWhile_lazy take_before_error take_past_error findM_error_position run_indexWhere_eager'
 ).split()]
 TRUSTED = ["CPython's sorted() is a stable sort (licensed by stable_sort_unique); Python ==/hash on the generated values "
            "is what Value.pyEq / canon model; iteration order of an input set is read from CPython",
